@@ -18,7 +18,8 @@ def p_rectgeo(e, arg):
     nx, ny, nz, atm, convention, nsurf = arg[:6]
     onelayer = len(arg) > 6 and arg[6] == 'onelayer'
     rot = arg[6] if len(arg) > 6 and isinstance(arg[6], int) else 0          # the original rotated clockwise by a multiple of 90 degrees
-    tag = '[%dx%dx%d,atm%d,conv%d,%d surfaces%s]' % (tuple(arg[:6]) + (',onelayer' if onelayer else (',rotated %d' % rot if rot else ''),))
+    singlex = len(arg) > 6 and arg[6] == 'singlex'       # a single block in the x direction: the recorded finding (match_position divides by zero)
+    tag = '[%dx%dx%d,atm%d,conv%d,%d surfaces%s]' % (tuple(arg[:6]) + (',onelayer' if onelayer else (',single x' if singlex else (',rotated %d' % rot if rot else '')),))
     def prog(e):
         geo, S = build_rect(e, nx, ny, nz, atm, 0, nsurf, origin=[e.sym_real('ox'), e.sym_real('oy'), e.sym_real('oz')])
         snap = z3.RealVal('1/10')
@@ -113,11 +114,11 @@ def p_rectgeo(e, arg):
 
 
 RECTS = [(2, 1, 2, 2, 0, 0), (2, 1, 2, 0, 0, 0), (2, 2, 2, 1, 0, 0), (2, 1, 3, 0, 0, 1), (3, 2, 2, 2, 1, 0), (2, 2, 3, 1, 2, 1), (2, 1, 3, 2, 3, 1), (2, 2, 2, 0, 0, 1),
-         (2, 1, 2, 2, 3, 1, 'onelayer'), (2, 2, 2, 2, 0, 0, 90), (2, 2, 2, 0, 0, 1, 180), (3, 2, 2, 1, 1, 0, 270)]
+         (2, 1, 2, 2, 3, 1, 'onelayer'), (1, 2, 2, 2, 0, 0, 'singlex'), (2, 2, 2, 2, 0, 0, 90), (2, 2, 2, 0, 0, 1, 180), (3, 2, 2, 1, 1, 0, 270)]
 PROGRAMS = [('p_rectgeo', r) for r in RECTS]
 
 
-RECTS_THOROUGH = [(3, 3, 3, 0, 0, 2), (4, 2, 2, 1, 1, 1), (2, 3, 4, 2, 2, 2), (3, 1, 4, 0, 3, 2), (1, 3, 3, 1, 0, 1), (3, 3, 2, 2, 0, 0), (4, 1, 3, 0, 0, 2)]
+RECTS_THOROUGH = [(3, 3, 3, 0, 0, 2), (4, 2, 2, 1, 1, 1), (2, 3, 4, 2, 2, 2), (3, 1, 4, 0, 3, 2), (3, 1, 3, 1, 0, 1), (3, 3, 2, 2, 0, 0), (4, 1, 3, 0, 0, 2)]
 
 
 def programs(tier):
